@@ -361,6 +361,54 @@ theorem include_code_counterexample :
     ((res st0 [.simple (.instr 3 false { code := [(0x34, true), (0x12, false)] })]).map
       fun r => (r.2.calls.length, r.1.writes, r.1.quiet)) = some (0, [0x100, 0x101], [0x100, 0x101]) := by decide +kernel
 
+/-- a formatter of a CPU whose addresses are 2-byte units, as its listing reads: the line printed for the instruction
+at byte address `a` carries the address `a / 2`, which a reader takes for the bytes `2 * (a / 2)` and the next -/
+def wordUnits : Formatter where
+  adjust := fun _ s => s
+  len := fun _ _ => 2
+  render := fun m a =>
+    let base := (a / 2) * 2
+    { addr := a, len := 2, cells := [⟨base, read8 m a⟩, ⟨base + 1, read8 m (a + 1)⟩] }
+
+/-- **unaligned_code_counterexample.**  An instruction assembled at the odd byte address 0x20f of such a CPU (it
+follows odd-length data) is listed at unit 0x107: the line claims the bytes 0x20e and 0x20f, the instruction occupies
+0x20f and 0x210 — the formatter is not `SoundOn`, which every run-level theorem requires. -/
+theorem unaligned_code_counterexample (m : Memory) :
+    ((wordUnits.render m 0x20f).cells.map (·.addr)) = [0x20e, 0x20f] ∧ addrRange 0x20f 2 = [0x20f, 0x210] ∧
+    ¬ wordUnits.SoundOn m := by
+  have e1 : ((wordUnits.render m 0x20f).cells.map (·.addr)) = [0x20e, 0x20f] := by
+    show [(0x20f#32 / 2) * 2, (0x20f#32 / 2) * 2 + 1] = [0x20e, 0x20f]
+    decide
+  refine ⟨e1, by decide, ?_⟩
+  intro h
+  have h2 := congrArg (List.map (·.addr)) (h 0x20f).2.2
+  rw [bytesOf_addrs, e1] at h2
+  have : wordUnits.len m 0x20f = 2 := rfl
+  rw [this] at h2
+  revert h2
+  decide
+
+/-- **repeat_gap_counterexample.**  `.repeat 2 / <2-byte instruction> / .resb 1 / <2-byte instruction> / .endr`:
+the copy is 5 bytes of code (the gap byte is copied with `add_bin8`), so no sequence of 2-byte lines ends where the
+run ends: the lengths a 2-byte decoder can produce for it never add up to the code of the call (`Call.Exact` fails). -/
+theorem repeat_gap_counterexample (m : Memory) (fuel : Nat) (a : BitVec 32) :
+    ((listLoop twoByte m fuel a (a + 5)).map (·.len)).sum ≠ 5 := by
+  have : ∀ (fuel : Nat) (s : BitVec 32), ((listLoop twoByte m fuel s (a + 5)).map (·.len)).sum % 2 = 0 := by
+    intro fuel
+    induction fuel with
+    | zero => intro s; simp [listLoop]
+    | succ k ih =>
+      intro s
+      simp only [listLoop]
+      split
+      · simp only [List.map_cons, List.sum_cons]
+        have := ih (s + BitVec.ofNat 32 (twoByte.len m s))
+        have hl : (twoByte.render m s).len = 2 := rfl
+        omega
+      · simp
+  have := this fuel a
+  omega
+
 /-! ## non-vacuity -/
 
 /-- a run that satisfies every hypothesis: instruction, data, instruction, reservation, data -/
